@@ -1,16 +1,21 @@
 #!/bin/sh
-# usage: seedregress.sh [name-glob]  : re-run, for every filed seeded change, the checks recorded as catching it (in a scratch worktree; /repo untouched)
-cd /verif
+# usage: seedregress.sh [name-glob]  : re-run, for every filed seeded change, the checks recorded as catching it.
+# Works on a snapshot of /verif (so that /verif may be edited meanwhile) and on scratch worktrees of /repo HEAD (/repo untouched);
+# the runs write to /var/tmp/verif-alt-out, never to /verif/evidence.
+snap=$(mktemp -d /var/tmp/verifsnap-XXXXXX)
+rsync -a --exclude .git --exclude evidence --exclude replays /verif/ "$snap"/
+cd "$snap" || exit 2
 for d in seeded/${1:-*}/; do
   name=$(basename $d)
   wt=$(mktemp -d /var/tmp/seedwt-XXXXXX); rmdir $wt
   git -C /repo worktree add --detach $wt HEAD -q || { echo "$name worktree-failed"; continue; }
-  if git -C $wt apply /verif/$d/patch.diff; then
-    for c in $(/venv/bin/python -c "import json;print(' '.join(k for k,v in json.load(open('/verif/$d/meta.json'))['detected_by'].items() if v))"); do
-      out=$(VERIF_REPO=$wt /verif/check $c 2>/dev/null | tail -1)
+  if git -C $wt apply "$snap/$d/patch.diff"; then
+    for c in $(/venv/bin/python -c "import json;print(' '.join(k for k,v in json.load(open('$snap/$d/meta.json'))['detected_by'].items() if v))"); do
+      out=$(VERIF_REPO=$wt "$snap"/check $c 2>/dev/null | tail -1)
       case "$out" in *violation*) echo "$name $c caught";; *) echo "$name $c MISSED: $out";; esac
     done
   else echo "$name patch-does-not-apply"; fi
   git -C /repo worktree remove --force $wt
 done
 git -C /repo worktree prune
+rm -rf "$snap"
